@@ -46,6 +46,8 @@ def _history(kind, body, ending):
     with tempfile.TemporaryDirectory() as td:
         path = os.path.join(td, fname)
         w = RecordWriter(scheme + path)
+        if ending.startswith("with-exit"):
+            w = w.__enter__()  # `with RecordWriter(...) as w:`
         written = []
         for op in body:
             if op == "w":
